@@ -100,8 +100,8 @@ func runC01(p *core.Program, r *core.Report) {
 	ip := &bits.Interp{P: p}
 	c01Pack(p, r, ip)
 	c01Methods(p, r)
-	c01Decimal(p, r, ip)
-	c01Blob(p, r)
+	c01Decimal(p, r, ip, "C01.decimal")
+	c01Blob(p, r, "C01.blob")
 	c01Helpers(p, r)
 	c01Counter(p, r)
 	c01Chokepoint(p, r)
@@ -359,10 +359,10 @@ var c01Classes = []decClass{
 	{5, "-549755813888", "549755813887"}, {8, "-9223372036854775808", "9223372036854775807"},
 }
 
-func c01Decimal(p *core.Program, r *core.Report, ip *bits.Interp) {
+func c01Decimal(p *core.Program, r *core.Report, ip *bits.Interp, rule string) {
 	fi := p.Method("io", "DataOutputX", "WriteDecimal")
 	if fi == nil {
-		r.Undec("C01.decimal", "io.(*DataOutputX).WriteDecimal", "-", "not found")
+		r.Undec(rule, "io.(*DataOutputX).WriteDecimal", "-", "not found")
 		return
 	}
 	info := fi.Pkg.TypesInfo
@@ -374,14 +374,14 @@ func c01Decimal(p *core.Program, r *core.Report, ip *bits.Interp) {
 	}
 	base := "io.(*DataOutputX).WriteDecimal"
 	if sw == nil {
-		r.Undec("C01.decimal", base, p.Pos(fi.Decl.Pos()), "no tagless switch over the value (the length classes are not visible as ordered case guards)")
+		r.Undec(rule, base, p.Pos(fi.Decl.Pos()), "no tagless switch over the value (the length classes are not visible as ordered case guards)")
 		return
 	}
 	var vobj types.Object = info.Defs[fi.Decl.Type.Params.List[0].Names[0]]
 	clauses := sw.Body.List
 	// clause 0: v == 0 -> WriteByte(0)
 	if len(clauses) != len(c01Classes)+1 {
-		r.Viol("C01.decimal", base+" classes", p.Pos(sw.Pos()), fmt.Sprintf("%d cases, want zero + %d length classes", len(clauses), len(c01Classes)))
+		r.Viol(rule, base+" classes", p.Pos(sw.Pos()), fmt.Sprintf("%d cases, want zero + %d length classes", len(clauses), len(c01Classes)))
 		return
 	}
 	isV := func(e ast.Expr) bool {
@@ -404,7 +404,7 @@ func c01Decimal(p *core.Program, r *core.Report, ip *bits.Interp) {
 			}
 		}
 		emits := singleWriteByteConst(info, cl.Body)
-		r.Check(ok && emits == "0", "C01.decimal", base+" class 0", p.Pos(cl.Pos()), "v == 0 -> one byte 0", "zero is not encoded as the single byte 0 under the guard v == 0")
+		r.Check(ok && emits == "0", rule, base+" class 0", p.Pos(cl.Pos()), "v == 0 -> one byte 0", "zero is not encoded as the single byte 0 under the guard v == 0")
 	}
 	for i, want := range c01Classes {
 		cl := clauses[i+1].(*ast.CaseClause)
@@ -421,7 +421,7 @@ func c01Decimal(p *core.Program, r *core.Report, ip *bits.Interp) {
 			}
 		}
 		if !guardOK {
-			r.Viol("C01.decimal", c, pos, fmt.Sprintf("case guard is not exactly %s <= v && v <= %s at position %d: the shortest form is not chosen for some value", want.lo, want.hi, i+1))
+			r.Viol(rule, c, pos, fmt.Sprintf("case guard is not exactly %s <= v && v <= %s at position %d: the shortest form is not chosen for some value", want.lo, want.hi, i+1))
 			continue
 		}
 		// interpret the body: bytes handed to out.WriteBytes
@@ -451,7 +451,7 @@ func c01Decimal(p *core.Program, r *core.Report, ip *bits.Interp) {
 			}
 		}
 		if bad != "" || emitted == nil {
-			r.Undec("C01.decimal", c, pos, "class body outside the fragment: "+bad)
+			r.Undec(rule, c, pos, "class body outside the fragment: "+bad)
 			continue
 		}
 		in := bits.Input(fi.Decl.Type.Params.List[0].Names[0].Name, 64)
@@ -475,9 +475,9 @@ func c01Decimal(p *core.Program, r *core.Report, ip *bits.Interp) {
 			}
 		}
 		if ok {
-			r.OK("C01.decimal", c, pos, fmt.Sprintf("[%s,%s] -> tag %d + %d big-endian bytes", want.lo, want.hi, want.tag, want.tag))
+			r.OK(rule, c, pos, fmt.Sprintf("[%s,%s] -> tag %d + %d big-endian bytes", want.lo, want.hi, want.tag, want.tag))
 		} else {
-			r.Viol("C01.decimal", c, pos, detail)
+			r.Viol(rule, c, pos, detail)
 		}
 	}
 	// readers
@@ -486,7 +486,7 @@ func c01Decimal(p *core.Program, r *core.Report, ip *bits.Interp) {
 		rfi := p.Method("io", "DataInputX", rn)
 		c := "io.(*DataInputX)." + rn
 		if rfi == nil {
-			r.Undec("C01.decimal", c, "-", "not found")
+			r.Undec(rule, c, "-", "not found")
 			continue
 		}
 		rinfo := rfi.Pkg.TypesInfo
@@ -498,7 +498,7 @@ func c01Decimal(p *core.Program, r *core.Report, ip *bits.Interp) {
 			return true
 		})
 		if rsw == nil {
-			r.Undec("C01.decimal", c, p.Pos(rfi.Decl.Pos()), "no switch on the length tag")
+			r.Undec(rule, c, p.Pos(rfi.Decl.Pos()), "no switch on the length tag")
 			continue
 		}
 		seen := map[string]bool{}
@@ -524,7 +524,7 @@ func c01Decimal(p *core.Program, r *core.Report, ip *bits.Interp) {
 				seen[k] = true
 				cc := fmt.Sprintf("%s tag %s", c, k)
 				if k == "0" {
-					r.Check(ret != nil && cstr2(rinfo, ret) == "0", "C01.decimal", cc, p.Pos(cl.Pos()), "tag 0 -> 0", "tag 0 does not decode to 0")
+					r.Check(ret != nil && cstr2(rinfo, ret) == "0", rule, cc, p.Pos(cl.Pos()), "tag 0 -> 0", "tag 0 does not decode to 0")
 					continue
 				}
 				want, known := readerOf[k]
@@ -536,12 +536,12 @@ func c01Decimal(p *core.Program, r *core.Report, ip *bits.Interp) {
 				if k == "1" {
 					ok = ok && conv8 // -1 must not read back as 255
 				}
-				r.Check(ok, "C01.decimal", cc, p.Pos(cl.Pos()), "-> "+want, fmt.Sprintf("tag %s is decoded with %s (int8 conversion: %v), want %s", k, got, conv8, want))
+				r.Check(ok, rule, cc, p.Pos(cl.Pos()), "-> "+want, fmt.Sprintf("tag %s is decoded with %s (int8 conversion: %v), want %s", k, got, conv8, want))
 			}
 		}
 		for _, k := range []string{"0", "1", "2", "3", "4", "5", "default"} {
 			if !seen[k] {
-				r.Viol("C01.decimal", fmt.Sprintf("%s tag %s", c, k), p.Pos(rsw.Pos()), "no case for this tag")
+				r.Viol(rule, fmt.Sprintf("%s tag %s", c, k), p.Pos(rsw.Pos()), "no case for this tag")
 			}
 		}
 	}
@@ -597,11 +597,11 @@ func singleWriteByteConst(info *types.Info, body []ast.Stmt) string {
 }
 
 // c01Blob: thresholds/markers of WriteBlob vs ReadBlob.
-func c01Blob(p *core.Program, r *core.Report) {
+func c01Blob(p *core.Program, r *core.Report, rule string) {
 	w := p.Method("io", "DataOutputX", "WriteBlob")
 	rd := p.Method("io", "DataInputX", "ReadBlob")
 	if w == nil || rd == nil {
-		r.Undec("C01.blob", "io WriteBlob/ReadBlob", "-", "not found")
+		r.Undec(rule, "io WriteBlob/ReadBlob", "-", "not found")
 		return
 	}
 	winfo, rinfo := w.Pkg.TypesInfo, rd.Pkg.TypesInfo
@@ -645,18 +645,18 @@ func c01Blob(p *core.Program, r *core.Report) {
 	pos := p.Pos(w.Decl.Pos())
 	okW := len(thresholds) == 2 && len(markers) == 2
 	if !okW {
-		r.Undec("C01.blob", "io.(*DataOutputX).WriteBlob", pos, fmt.Sprintf("cannot read the length classes (thresholds %v, markers %v)", thresholds, markers))
+		r.Undec(rule, "io.(*DataOutputX).WriteBlob", pos, fmt.Sprintf("cannot read the length classes (thresholds %v, markers %v)", thresholds, markers))
 		return
 	}
 	minMarker := markers[0].m
 	if markers[1].m < minMarker {
 		minMarker = markers[1].m
 	}
-	r.Check(thresholds[0] == 253 && thresholds[0] < minMarker, "C01.blob", "io.WriteBlob one-byte class", pos,
+	r.Check(thresholds[0] == 253 && thresholds[0] < minMarker, rule, "io.WriteBlob one-byte class", pos,
 		"lengths 1..253 use the length byte itself; 254/255 are reserved markers", fmt.Sprintf("one-byte lengths go up to %d but %d is a marker: that length is mis-decoded", thresholds[0], minMarker))
-	r.Check(markers[0].m == 255 && markers[0].n == 2 && markers[0].setter == "SetBytesShort" && thresholds[1] == 65535, "C01.blob", "io.WriteBlob two-byte class", pos,
+	r.Check(markers[0].m == 255 && markers[0].n == 2 && markers[0].setter == "SetBytesShort" && thresholds[1] == 65535, rule, "io.WriteBlob two-byte class", pos,
 		"254..65535 -> marker 255 + 2-byte length", fmt.Sprintf("marker %d with %d length bytes via %s up to %d; want 255, 2, SetBytesShort, 65535", markers[0].m, markers[0].n, markers[0].setter, thresholds[1]))
-	r.Check(markers[1].m == 254 && markers[1].n == 4 && markers[1].setter == "SetBytesInt", "C01.blob", "io.WriteBlob four-byte class", pos,
+	r.Check(markers[1].m == 254 && markers[1].n == 4 && markers[1].setter == "SetBytesInt", rule, "io.WriteBlob four-byte class", pos,
 		"> 65535 -> marker 254 + 4-byte length", fmt.Sprintf("marker %d with %d length bytes via %s; want 254, 4, SetBytesInt", markers[1].m, markers[1].n, markers[1].setter))
 	// reader
 	var rsw *ast.SwitchStmt
@@ -667,7 +667,7 @@ func c01Blob(p *core.Program, r *core.Report) {
 		return true
 	})
 	if rsw == nil {
-		r.Undec("C01.blob", "io.(*DataInputX).ReadBlob", p.Pos(rd.Decl.Pos()), "no switch on the length byte")
+		r.Undec(rule, "io.(*DataInputX).ReadBlob", p.Pos(rd.Decl.Pos()), "no switch on the length byte")
 		return
 	}
 	got := map[string]string{}
@@ -689,10 +689,10 @@ func c01Blob(p *core.Program, r *core.Report) {
 		got[key] = strings.Join(calls, ",")
 	}
 	rpos := p.Pos(rd.Decl.Pos())
-	r.Check(got["255"] == "ReadBytes,ReadUnsignedShort" || got["255"] == "ReadUnsignedShort,ReadBytes", "C01.blob", "io.ReadBlob marker 255", rpos, "2-byte unsigned length", "marker 255 handled by "+got["255"])
-	r.Check(got["254"] == "ReadBytes,ReadInt" || got["254"] == "ReadInt,ReadBytes", "C01.blob", "io.ReadBlob marker 254", rpos, "4-byte length", "marker 254 handled by "+got["254"])
+	r.Check(got["255"] == "ReadBytes,ReadUnsignedShort" || got["255"] == "ReadUnsignedShort,ReadBytes", rule, "io.ReadBlob marker 255", rpos, "2-byte unsigned length", "marker 255 handled by "+got["255"])
+	r.Check(got["254"] == "ReadBytes,ReadInt" || got["254"] == "ReadInt,ReadBytes", rule, "io.ReadBlob marker 254", rpos, "4-byte length", "marker 254 handled by "+got["254"])
 	_, has0 := got["0"]
-	r.Check(has0 && got["0"] == "" && got["default"] == "ReadBytes", "C01.blob", "io.ReadBlob 0/default", rpos, "0 -> empty; other -> that many bytes", fmt.Sprintf("0 handled by %q, default by %q", got["0"], got["default"]))
+	r.Check(has0 && got["0"] == "" && got["default"] == "ReadBytes", rule, "io.ReadBlob 0/default", rpos, "0 -> empty; other -> that many bytes", fmt.Sprintf("0 handled by %q, default by %q", got["0"], got["default"]))
 	// WriteText ≅ WriteBlob([]byte(s)), ReadText ≅ string(ReadBlob())
 	wt, rt := p.Method("io", "DataOutputX", "WriteText"), p.Method("io", "DataInputX", "ReadText")
 	callsBlob := func(fi *core.FuncInfo, name string) bool {
@@ -710,7 +710,7 @@ func c01Blob(p *core.Program, r *core.Report) {
 		})
 		return ok
 	}
-	r.Check(callsBlob(wt, "WriteBlob") && callsBlob(rt, "ReadBlob"), "C01.blob", "io text = blob of the string's bytes", rpos, "WriteText delegates to WriteBlob, ReadText to ReadBlob", "text is not carried as a blob")
+	r.Check(callsBlob(wt, "WriteBlob") && callsBlob(rt, "ReadBlob"), rule, "io text = blob of the string's bytes", rpos, "WriteText delegates to WriteBlob, ReadText to ReadBlob", "text is not carried as a blob")
 }
 
 func c01Helpers(p *core.Program, r *core.Report) {
